@@ -34,7 +34,10 @@ func (discardLog) Print(v ...interface{})                 {}
 func (discardLog) Printf(format string, v ...interface{}) {}
 func (discardLog) Println(v ...interface{})               {}
 
+// the session's default keyspace is demo; the second table lives in another keyspace with a different
+// replication, so that a Pick which resolves the query's keyspace wrongly walks the wrong replicas
 const e2eStmt = `SELECT k, v FROM kv WHERE k = ?`
+const e2eStmtOther = `SELECT k, v FROM other.kv2 WHERE k = ?`
 
 func e2eOne(o *hlib.Out, r *hlib.Rng, stats map[string]int, variant int) {
 	nNodes := 4 + r.Intn(4)
@@ -71,11 +74,25 @@ func e2eOne(o *hlib.Out, r *hlib.Rng, stats map[string]int, variant int) {
 	} else {
 		n.SetKeyspace("demo", node.Keyspace{Replication: node.NetworkTopologyStrategy(rfs), DurableWrites: true})
 	}
+	// the other keyspace: replicated differently from demo, to at least two hosts
+	otherSimple, otherRF := true, 3
+	otherRfs := map[string]int{}
+	if simple && simpleRF == 3 {
+		otherSimple = false
+		for dc := range rfs {
+			otherRfs[dc] = 2
+		}
+		n.SetKeyspace("other", node.Keyspace{Replication: node.NetworkTopologyStrategy(otherRfs), DurableWrites: true})
+	} else {
+		n.SetKeyspace("other", node.Keyspace{Replication: node.SimpleStrategy(otherRF), DurableWrites: true})
+	}
+	n.SetTable(&node.Table{Keyspace: "other", Name: "kv2", PartitionKey: []string{"k"},
+		Columns: []node.Column{node.Col("k", node.Varchar), node.Col("v", node.Int)}})
 	n.SetTable(&node.Table{Keyspace: "demo", Name: "kv", PartitionKey: []string{"k"},
 		Columns: []node.Column{node.Col("k", node.Varchar), node.Col("v", node.Int)}})
 	// every node refuses the test statement: the query moves on to the next host
 	for _, x := range nodes {
-		x.n.AddRule(node.Rule{Match: node.MatchStatement("FROM kv WHERE k = ?", node.OpExecute), Do: func(c *node.ServerConn, req *node.Request) {
+		x.n.AddRule(node.Rule{Match: node.MatchStatement("WHERE k = ?", node.OpExecute), Do: func(c *node.ServerConn, req *node.Request) {
 			c.Reply(req, node.Error{Code: node.ErrOverloaded, Message: "verif: try the next host"})
 		}})
 	}
@@ -98,6 +115,8 @@ func e2eOne(o *hlib.Out, r *hlib.Rng, stats map[string]int, variant int) {
 		return
 	}
 	defer sess.Close()
+	// the session learns about the other keyspace (what a schema change event does)
+	pol.KeyspaceChanged(gocql.KeyspaceUpdateEvent{Keyspace: "other", Change: "UPDATED"})
 	// all hosts discovered, their pools filled (one connection each, plus the control connection)
 	okc := n.WaitFor(10*time.Second, func() bool {
 		for i, x := range nodes {
@@ -162,6 +181,37 @@ func e2eOne(o *hlib.Out, r *hlib.Rng, stats map[string]int, variant int) {
 			gocql.VerifC11SetUp(x.h.info, x.h.up)
 		}
 		key := fmt.Sprintf("key-%d-%d", variant, r.Intn(1000))
+		// a fresh Query object every time; every other one on the table outside the default keyspace: its keyspace
+		// is known to the Query only from the prepared statement's metadata, resolved inside GetRoutingKey
+		qks, stmt := "demo", e2eStmt
+		if q%2 == 0 {
+			qks, stmt = "other", e2eStmtOther
+		}
+		s.ks = qks
+		for d := range s.rf {
+			delete(s.rf, d)
+		}
+		if qks == "demo" {
+			s.simpleRF, s.strat = simpleRF, "NetworkTopologyStrategy"
+			if simple {
+				s.strat = "SimpleStrategy"
+			}
+			for d := 1; d <= nDC; d++ {
+				if rf, ok := rfs[dcName(d)]; ok {
+					s.rf[d] = rf
+				}
+			}
+		} else {
+			s.simpleRF, s.strat = otherRF, "SimpleStrategy"
+			if !otherSimple {
+				s.strat = "NetworkTopologyStrategy"
+				for d := 1; d <= nDC; d++ {
+					if rf, ok := otherRfs[dcName(d)]; ok {
+						s.rf[d] = rf
+					}
+				}
+			}
+		}
 		// the state the Pick of this query will see
 		s.evs = s.evs[:0]
 		s.viol = s.viol[:0]
@@ -179,7 +229,7 @@ func e2eOne(o *hlib.Out, r *hlib.Rng, stats map[string]int, variant int) {
 		}
 		ctr := gocql.VerifC11Counter(pol)
 		s.ev("EL (LSetCtr %s)", hlib.ZU(ctr))
-		haveRing, reps, haveReps, prim := gocql.VerifC11Lookup(pol, "demo", []byte(key))
+		haveRing, reps, haveReps, prim := gocql.VerifC11Lookup(pol, qks, []byte(key))
 		if !haveRing {
 			o.Violate(-1, "e2e-setup", "", "the session's token-aware policy has no token ring", nil)
 			return
@@ -204,7 +254,7 @@ func e2eOne(o *hlib.Out, r *hlib.Rng, stats map[string]int, variant int) {
 		for _, l := range s.mirror {
 			s.taHosts = append(s.taHosts, l...)
 		}
-		s.lookupEvent([]byte(key), "demo", fmt.Sprintf("(QKey %s %s %s)", ht, pr, order))
+		s.lookupEvent([]byte(key), qks, fmt.Sprintf("(QKey %s %s %s)", ht, pr, order))
 		s.ev("EL (LPick 0%%nat (QKey %s %s %s))", ht, pr, order)
 		for _, l := range s.mirror {
 			it.lists = append(it.lists, append([]*hostT(nil), l...))
@@ -221,7 +271,7 @@ func e2eOne(o *hlib.Out, r *hlib.Rng, stats map[string]int, variant int) {
 		ctx, cancel := context.WithTimeout(context.Background(), 20*time.Second)
 		var k string
 		var v int
-		qerr := sess.Query(e2eStmt, key).WithContext(ctx).Idempotent(true).Scan(&k, &v)
+		qerr := sess.Query(stmt, key).WithContext(ctx).Idempotent(true).Scan(&k, &v)
 		timedOut := ctx.Err() != nil
 		cancel()
 		// who saw the EXECUTE, in arrival order
@@ -232,7 +282,7 @@ func e2eOne(o *hlib.Out, r *hlib.Rng, stats map[string]int, variant int) {
 		var got []seen
 		for _, x := range nodes {
 			for _, rq := range x.n.Requests() {
-				if rq.Seq > seqBefore && rq.Execute != nil && strings.Contains(rq.Statement(), "FROM kv WHERE k = ?") {
+				if rq.Seq > seqBefore && rq.Execute != nil && strings.Contains(rq.Statement(), "WHERE k = ?") {
 					if len(rq.Execute.Params.Values) != 1 || string(rq.Execute.Params.Values[0].Bytes) != key {
 						s.violate("e2e-values", "", fmt.Sprintf("EXECUTE with unexpected values on %s", x.addr))
 					}
@@ -265,6 +315,7 @@ func e2eOne(o *hlib.Out, r *hlib.Rng, stats map[string]int, variant int) {
 		s.finish(it)
 		s.pickSeq++
 		stats["e2e-queries"]++
+		stats["e2e-queries-keyspace-"+qks]++
 		stats["e2e-hosts-tried"] += len(it.offered)
 		emit(o, "e2e-session", s)
 	}
